@@ -6,6 +6,20 @@ package ws
 
 //@ ghost field Conn.$connClosed bool
 //@ ghost field Chan.$chclosed bool
+// $chsends: number of values sent on the channel so far; $chlast: the (backing array of the) value sent last
+//@ ghost field Chan.$chsends int
+//@ ghost field Chan.$chlast int
+// $chrecvs / $chrecvlast: the same for successful receives
+//@ ghost field Chan.$chrecvs int
+//@ ghost field Chan.$chrecvlast int
+// $bin: number of binary (SHIP) frames written to the socket so far; $binlast: the buffer of the last one
+//@ ghost field websocket.Conn.$bin int
+//@ ghost field websocket.Conn.$binlast int
+//@ macro BINSTEP(conn, t, data, ok) := ((t == websocket.BinaryMessage && ok) ==> conn.$bin == old(conn.$bin) + 1 && conn.$binlast == ref(data)) && (!(t == websocket.BinaryMessage && ok) ==> conn.$bin == old(conn.$bin) && conn.$binlast == old(conn.$binlast))
+// nothing is ever sent on the close channel: a receive from it completes only once close() has released it
+//@ closeonly WebsocketConnection.closeChannel
+// sends to and receives from the write queue are logged in the ghost fields above
+//@ chanlog WebsocketConnection.shipWriteChannel
 //@ ghost field Reader.$errReports int
 //@ ghost field Reader.$delivered int
 
@@ -15,6 +29,8 @@ package ws
 //@   modifies conn.$connClosed
 //@ lib (conn *websocket.Conn).ReadMessage()
 //@ lib (conn *websocket.Conn).WriteMessage(messageType, data)
+//@   ensures @BINSTEP(conn, messageType, data, result == nil)
+//@   modifies conn.$bin, conn.$binlast
 //@ lib (conn *websocket.Conn).SetReadDeadline(t)
 //@ lib (conn *websocket.Conn).SetWriteDeadline(t)
 //@ lib (conn *websocket.Conn).SetPongHandler(h)
@@ -40,7 +56,8 @@ package ws
 
 // C13-T2: once the closed flag is set, the close channel is closed and the socket is closed
 //@ macro WSINV(w) := (w.connectionClosed ==> w.closeChannel.$chclosed && (w.conn == nil || w.conn.$connClosed))
-//@ objinv (w *WebsocketConnection) [C13] T2-released: @WSINV(w)
+// (C12: a writer parked on the full queue is released through the close channel, so "closed" must imply "released")
+//@ objinv (w *WebsocketConnection) [C13,C12] T2-released: @WSINV(w)
 //@ objinv (w *WebsocketConnection) O1-once: (w.shutdownOnce.$done ==> w.connectionClosed) && (!w.shutdownOnce.$done ==> !w.closeChannel.$chclosed)
 // C12-W2: nobody ever closes the ship write channel, so a sender can never hit a closed channel
 //@ objinv (w *WebsocketConnection) [C12] W2-open: !w.shipWriteChannel.$chclosed
@@ -68,6 +85,9 @@ package ws
 //@   ensures @WSOK(w) && @KEEPW(w)
 //@   ensures [C13] T4-closed: w.connectionClosed && w.connectionClosedError == err
 //@   ensures [C13] T4-reported: w.dataProcessing.$errReports == old(w.dataProcessing.$errReports) + 1
+// the SHIP layer is told only once the connection answers "closed, with this error" and is released: nothing
+// it does in response, and no frame the read pump still holds, can see an open connection after the report
+//@   atcall ReportConnectionError [C13,C12] T4-flag-first: w.connectionClosed && w.connectionClosedError == err && @WSINV(w)
 //@   modifies @wsst(w)
 //@ func (w *WebsocketConnection).CloseDataConnection(closeCode, reason) entry [C13,C08]
 //@   ensures [C13] T1-closed: w.connectionClosed
@@ -76,18 +96,27 @@ package ws
 //@ func (w *WebsocketConnection).IsDataConnectionClosed() entry [C13,C12]
 //@   ensures result.0 == w.connectionClosed
 //@   ensures [C13] T6-error: result.0 ==> result.1 != nil
-//@ func (w *WebsocketConnection).WriteMessageToWebsocketConnection(message) entry [C12,C08]
+//@ func (w *WebsocketConnection).WriteMessageToWebsocketConnection(message) entry [C12,C06,C08]
 //@   ensures [C12] W1-closed: old(w.connectionClosed) ==> result != nil
-//@   modifies w.dataProcessing.$errReports
-//@ func (w *WebsocketConnection).writeMessage(messageType, data) entry [C13,C08]
+// C06, send side: a frame handed to an open connection is queued for the write pump - exactly this frame, exactly
+// once - and it is refused only because the connection is (being) closed, never because the peer is slow
+//@   ensures [C06,C12] Q1-queued: result == nil ==> w.shipWriteChannel.$chsends == old(w.shipWriteChannel.$chsends) + 1 && w.shipWriteChannel.$chlast == ref(message)
+//@   ensures [C06,C12] Q2-refused-only-closed: result != nil ==> old(w.connectionClosed) || w.shipWriteChannel == nil || w.closeChannel.$chclosed
+//@   modifies w.dataProcessing.$errReports, w.shipWriteChannel.$chsends, w.shipWriteChannel.$chlast
+//@ func (w *WebsocketConnection).writeMessage(messageType, data) entry [C13,C06,C08]
 //@   requires @WSOK(w)
 //@   ensures @WSOK(w) && @KEEPW(w)
-//@   modifies @wsst(w)
-//@ func (w *WebsocketConnection).writeMessageWithoutErrorHandling(messageType, data) [C08]
-//@ func (w *WebsocketConnection).handlePing() entry [C08]
+//@   ensures [C06,C12] P3-written: w.conn != nil ==> @BINSTEP(w.conn, messageType, data, result)
+//@   ensures [C06,C12] P3-failed-closed: !result ==> w.connectionClosed
+//@   modifies @wsst(w), w.conn.$bin, w.conn.$binlast
+//@ func (w *WebsocketConnection).writeMessageWithoutErrorHandling(messageType, data) [C06,C08]
+//@   ensures [C06,C12] P3-written: w.conn != nil ==> @BINSTEP(w.conn, messageType, data, result == nil)
+//@   modifies w.conn.$bin, w.conn.$binlast
+//@ func (w *WebsocketConnection).handlePing() entry [C06,C08]
 //@   requires @WSOK(w)
 //@   ensures @WSOK(w) && @KEEPW(w)
-//@   modifies @wsst(w)
+//@   ensures [C06,C12] P3-no-data: w.conn != nil ==> w.conn.$bin == old(w.conn.$bin) && w.conn.$binlast == old(w.conn.$binlast)
+//@   modifies @wsst(w), w.conn.$bin, w.conn.$binlast
 //@ func (w *WebsocketConnection).checkWebsocketMessage(msgType, data) [C08]
 //@   ensures result == nil <==> (msgType == websocket.BinaryMessage && len(data) >= 2)
 // Interference: the read blocks, and while it does other goroutines may close the connection (local close,
@@ -102,16 +131,23 @@ package ws
 //@ func (w *WebsocketConnection).textFromMessage(msg) [C08]
 //@ func (w *WebsocketConnection).readShipPump() entry [C13,C08]
 //@   atcall HandleIncomingWebsocketMessage [C13] T3-open: !w.connectionClosed
-//@   atcall ReportConnectionError [C13] T3-report: w.connectionClosed && w.connectionClosedError != nil && @WSINV(w)
+//@   atcall ReportConnectionError [C13,C12] T3-report: w.connectionClosed && w.connectionClosedError != nil && @WSINV(w)
 //@   modifies @wsst(w)
 //@ loop (w *WebsocketConnection).readShipPump #0
 //@   invariant @WSOK(w)
-//@ func (w *WebsocketConnection).writeShipPump() [C08,C12]
-//@   requires @WSOK(w) && !w.shipWriteChannel.$chclosed
+// C06, send side: the write pump forwards every frame it takes from the queue - that frame, once, before it takes
+// the next one - unless the connection got closed (then it stops). Together with Q1/Q2 and the FIFO order of a Go
+// channel (assumed) the frames reach the socket exactly once and in sending order.
+//@ macro PUMPED(w) := w.conn.$bin - w.shipWriteChannel.$chrecvs == old(w.conn.$bin) - old(w.shipWriteChannel.$chrecvs)
+//@ func (w *WebsocketConnection).writeShipPump() [C08,C12,C06]
+//@   requires @WSOK(w) && !w.shipWriteChannel.$chclosed && w.conn != nil
 //@   ensures [C12] W2-open: !w.shipWriteChannel.$chclosed
-//@   modifies @wsst(w)
+//@   ensures [C06,C12] P2-forwarded-or-closed: @PUMPED(w) || w.connectionClosed
+//@   atcall writeMessage [C06,C12] P1-forward: $1 == websocket.BinaryMessage ==> ref($2) == w.shipWriteChannel.$chrecvlast && w.conn.$bin - w.shipWriteChannel.$chrecvs == old(w.conn.$bin) - old(w.shipWriteChannel.$chrecvs) - 1
+//@   modifies @wsst(w), w.conn.$bin, w.conn.$binlast, w.shipWriteChannel.$chrecvs, w.shipWriteChannel.$chrecvlast
 //@ loop (w *WebsocketConnection).writeShipPump #0
-//@   invariant @WSOK(w) && !w.shipWriteChannel.$chclosed
+//@   invariant @WSOK(w) && !w.shipWriteChannel.$chclosed && w.conn != nil
+//@   invariant [C06,C12] P2-step: @PUMPED(w)
 
 //@ func NewWebsocketConnection(conn, remoteSki) [C02,C13]
 //@   ensures result != nil && result.conn == conn && result.remoteSki == remoteSki
